@@ -1067,7 +1067,13 @@ func (q *MultiPhraseQuery) Searcher(i search.Reader, options search.SearcherOpti
 		field = options.DefaultSearchField
 	}
 
-	return searcher.NewSloppyMultiPhraseSearcher(i, q.terms, field, q.slop, q.scorer, options)
+	phraseSearcher, err := searcher.NewSloppyMultiPhraseSearcher(i, q.terms, field, q.slop, q.scorer, options)
+	if err != nil || q.boost.Value() == 1 {
+		return phraseSearcher, err
+	}
+	// the phrase searcher takes no boost: apply it once on top of the phrase score
+	return searcher.NewBooleanSearcher(phraseSearcher, nil, nil,
+		similarity.NewCompositeSumScorerWithBoost(q.boost.Value()), options)
 }
 
 func (q *MultiPhraseQuery) Validate() error {
